@@ -4,28 +4,28 @@
 (* sequences of any length (the state after every slice is canonical, so the graph closes).                          *)
 EXTENDS EncDelay, TLC
 CONSTANTS CfgSet
-VARIABLES c, filled, db, job, ok, cst
+VARIABLES c, filled, db, job, bad, cst
 
-vars == <<c, filled, db, job, ok, cst>>
+vars == <<c, filled, db, job, bad, cst>>
 Idle == [fs |-> 0, mode |-> 0, efs |-> 0, nb |-> 0, i |-> 0]
 CfgAll == Configs
-CfgQuick == {x \in Configs : x.Fs \in {8000, 16000, 48000}}
+CfgQuick == {x \in Configs : x.Fs \in {8000, 48000}}
 
-Init == /\ c \in CfgSet /\ filled = 0 /\ db = InitDb(c) /\ job = Idle /\ ok = TRUE /\ cst = "fresh"
+Init == /\ c \in CfgSet /\ filled = 0 /\ db = InitDb(c) /\ job = Idle /\ bad = {} /\ cst = "fresh"
 
 ModesFor(cc, fs) == IF cc.app = APP_LOWDELAY \/ fs < EB(cc) THEN {MODE_CELT} ELSE {MODE_SILK, MODE_HYB, MODE_CELT}
 
 Start == /\ job.nb = 0
          /\ \E fs \in FrameSizes(c) : \E m \in ModesFor(c, fs) :
               /\ job' = [fs |-> fs, mode |-> m, efs |-> EncFrameSize(c, fs, m), nb |-> NbFrames(c, fs, m), i |-> 0]
-              /\ ok' = (SlicesTile(c, fs, m) /\ EncFrameSize(c, fs, m) \in SliceSizes(c, m))
+              /\ bad' = (IF SlicesTile(c, fs, m) THEN {} ELSE {"SlicesTile"}) \cup (IF EncFrameSize(c, fs, m) \in SliceSizes(c, m) THEN {} ELSE {"SliceSizes"})
          /\ UNCHANGED <<c, filled, db, cst>>
 
 Step == /\ job.nb > 0
         /\ \E d \in Decisions :
              /\ d.mode = job.mode
              /\ LET R == Slice(c, db, d, job.efs) IN
-                /\ ok' = SliceTheorems(c, filled, job.efs, d, R)
+                /\ bad' = SliceFailures(c, filled, job.efs, d, R)
                 /\ db' = R.db
                 /\ cst' = CeltEndsAt(c, job.efs, R)
         /\ filled' = Min(filled + job.efs, EB(c))
@@ -34,12 +34,20 @@ Step == /\ job.nb > 0
 
 \* OPUS_RESET_STATE between calls: the delay buffer is cleared with everything after OPUS_ENCODER_RESET_START
 Reset == /\ job.nb = 0 /\ filled > 0
-         /\ db' = InitDb(c) /\ filled' = 0 /\ cst' = "fresh" /\ ok' = TRUE
+         /\ db' = InitDb(c) /\ filled' = 0 /\ cst' = "fresh" /\ bad' = {}
          /\ UNCHANGED <<c, job>>
 
 Next == Start \/ Step \/ Reset
 
-Theorems == /\ ok
+\* G11 (AnalysisRing) owns the analysis ring; its EncFrame is the slice size used here (tonality_get_info per slice)
+AR == INSTANCE AnalysisRing WITH CountMax <- 10000, DS <- 100
+AgreesWithG11 == \A Fs \in AR!FsSet : \A q \in QS : \A so \in BOOLEAN :
+                   LET cc == [Fs |-> Fs, ch |-> 1, app |-> APP_AUDIO] fs == q * N4(cc) IN
+                   (so => fs >= EB(cc)) =>
+                   AR!EncFrame(fs, Fs, so) = EncFrameSize(cc, fs, IF so THEN MODE_SILK ELSE MODE_CELT)
+ASSUME AgreesWithG11
+
+Theorems == /\ bad = {}
             /\ DeclOK(c) /\ LookaheadExact(c)
             /\ db = Canon(c, filled)                         \* at every slice boundary, for every history
             /\ (filled = 0 => db = InitDb(c))                \* Reset == fresh for this state (C12)
